@@ -68,7 +68,15 @@ type vfDReader struct {
 	size   int64
 	gen    int  // reset generation at open
 	wgen   int  // aof-writer generation at open
+	sgen   int  // snapshot generation at open
 	closed bool // closed by the harness
+}
+
+// vfHist is the oracle's record of one cache generation (between two resets).
+type vfHist struct {
+	hbase int64
+	hist  []byte
+	snap  []byte
 }
 
 type vfDisk struct {
@@ -92,6 +100,8 @@ type vfDisk struct {
 	snapDone bool   // snapshot completely written (and writer finished)
 	snapLive bool   // snapshot writer still open
 	haveSnap bool
+	sgen     int             // incremented when a snapshot is created or lost
+	past     map[int]*vfHist // histories of earlier generations (readers opened then)
 	// live objects
 	aofW    *AofWriter
 	rdbW    *RdbWriter
@@ -314,7 +324,9 @@ func (d *vfDisk) opNew(logSize, maxSize int64) {
 	d.st.VerifStopCollector()
 	d.logSize, d.maxSize = logSize, maxSize
 	d.runId = ""
-	d.gen, d.wgen = 0, 0
+	d.gen, d.wgen, d.sgen = 0, 0, 0
+	d.past = nil
+	d.haveHist, d.hist, d.snap = false, nil, nil
 	d.resetOracle()
 	d.aofW, d.rdbW, d.rdbSR = nil, nil, nil
 	d.readers = map[int]*vfDReader{}
@@ -329,7 +341,12 @@ var vfRoot0 string
 func (d *vfDisk) root0() string { return vfRoot0 }
 
 func (d *vfDisk) resetOracle() {
+	if d.past == nil {
+		d.past = map[int]*vfHist{}
+	}
+	d.past[d.gen] = &vfHist{d.hbase, d.hist, d.snap}
 	d.gen++
+	d.sgen++
 	d.haveHist, d.hbase, d.hist = false, 0, nil
 	d.haveSnap, d.snap, d.snapDone, d.snapLive = false, nil, false, false
 	d.aofW = nil
@@ -415,6 +432,9 @@ func (d *vfDisk) opRdbClose() {
 	d.rdbW, d.rdbSR = nil, nil
 	d.snapLive = false
 	d.snapDone = int64(len(d.snap)) == d.snapSize // false: an early close loses the snapshot
+	if !d.snapDone {
+		d.sgen++
+	}
 	d.emit("drdbc", "ok")
 }
 
@@ -488,7 +508,7 @@ func (d *vfDisk) opOpen(off int64, crc bool) {
 		}
 		return
 	}
-	vr := &vfDReader{rd: rd, isAof: rd.IsAof(), start: off, gen: d.gen, wgen: d.wgen, left: rd.Left(), size: rd.Size()}
+	vr := &vfDReader{rd: rd, isAof: rd.IsAof(), start: off, gen: d.gen, wgen: d.wgen, sgen: d.sgen, left: rd.Left(), size: rd.Size()}
 	d.readers[rid] = vr
 	if vr.isAof {
 		vr.pos = off
@@ -515,7 +535,18 @@ func (d *vfDisk) invalidated(vr *vfDReader) bool {
 	if vr.isAof && vr.wgen != d.wgen {
 		return true
 	}
+	if !vr.isAof && vr.sgen != d.sgen {
+		return true
+	}
 	return false
+}
+
+// histOf: the oracle's history of the generation reader vr was opened in.
+func (d *vfDisk) histOf(vr *vfDReader) *vfHist {
+	if vr.gen == d.gen {
+		return &vfHist{d.hbase, d.hist, d.snap}
+	}
+	return d.past[vr.gen]
 }
 
 func (d *vfDisk) opRead(rid int, n int) {
@@ -524,37 +555,63 @@ func (d *vfDisk) opRead(rid int, n int) {
 	buf := make([]byte, n)
 	var got int
 	var err error
-	ok := d.guard("read", func() {
+	inval := d.invalidated(vr)
+	done := make(chan struct{})
+	go func() {
+		defer close(done)
 		if vr.isAof {
 			got, err = vr.rd.aof.read(buf)
 		} else {
 			got, err = vr.rd.rdb.read(buf)
 		}
-	})
-	if !ok {
+	}()
+	limit := 8 * time.Second
+	if inval {
+		limit = 1500 * time.Millisecond
+	}
+	select {
+	case <-done:
+	case <-time.After(limit):
+		// release the stuck goroutine: closing the reader ends its polling loop
+		if vr.isAof {
+			vr.rd.aof.Close()
+		} else {
+			vr.rd.rdb.Close()
+		}
+		<-done
+		vr.closed = true
 		d.emit(op, "hang")
-		d.s.Violate("reader-stuck", fmt.Sprintf("reader %d (start %d, pos %d) did not deliver although bytes up to %d are held", rid, vr.start, vr.pos, d.right()),
-			d.replay(map[string]interface{}{"reader": rid}))
+		if inval {
+			d.s.Violate("invalidated-reader-hangs", fmt.Sprintf("reader %d (start %d, pos %d) was invalidated (reset/writer replacement) but neither ends nor fails: read blocks", rid, vr.start, vr.pos),
+				d.replay(map[string]interface{}{"reader": rid}))
+		} else {
+			d.s.Violate("reader-stuck", fmt.Sprintf("reader %d (start %d, pos %d) did not deliver although bytes up to %d are held", rid, vr.start, vr.pos, d.right()),
+				d.replay(map[string]interface{}{"reader": rid}))
+		}
 		return
 	}
-	inval := d.invalidated(vr)
 	if got > 0 {
 		b := buf[:got]
-		// ---- monitor: bytes read == bytes written at that offset
+		// ---- monitor: bytes read == bytes written at that offset (in the
+		// generation the reader was opened in)
 		var want []byte
-		if vr.isAof {
-			if vr.gen == d.gen && vr.pos >= d.hbase && vr.pos+int64(got) <= d.right() {
-				want = d.hist[vr.pos-d.hbase : vr.pos-d.hbase+int64(got)]
-			}
-		} else {
-			if vr.gen == d.gen && vr.pos+int64(got) <= int64(len(d.snap)) {
-				want = d.snap[vr.pos : vr.pos+int64(got)]
+		h := d.histOf(vr)
+		if h != nil {
+			if vr.isAof {
+				if vr.pos >= h.hbase && vr.pos+int64(got) <= h.hbase+int64(len(h.hist)) {
+					want = h.hist[vr.pos-h.hbase : vr.pos-h.hbase+int64(got)]
+				}
+			} else if vr.pos+int64(got) <= int64(len(h.snap)) {
+				want = h.snap[vr.pos : vr.pos+int64(got)]
 			}
 		}
 		d.s.Add("mon_bytes_checked", got)
 		if want == nil || string(want) != string(b) {
 			d.s.Violate("wrong-bytes", fmt.Sprintf("reader %d at %d delivered %x, written there: %x (invalidated=%v)", rid, vr.pos, b, want, inval),
 				d.replay(map[string]interface{}{"reader": rid, "offset": vr.pos}))
+		}
+		if inval {
+			d.s.Count("inval_reader_drained_old_bytes")
 		}
 		vr.pos += int64(got)
 		d.emit(op, "data "+vfutil.Hex(b))
@@ -622,7 +679,8 @@ func (d *vfDisk) chunk(max int) []byte {
 }
 
 // step executes one randomly chosen operation that the callers' protocol
-// allows in the current state. Returns false when nothing was done.
+// allows in the current state (weights favour long stream histories with
+// rotation, collection and readers following the writer).
 func (d *vfDisk) step() bool {
 	r := d.r
 	if d.runId == "" {
@@ -631,122 +689,133 @@ func (d *vfDisk) step() bool {
 		return true
 	}
 	live := d.liveReaders()
-	switch k := r.Intn(100); {
-	case k < 30: // append to the stream
-		if d.aofW == nil {
-			if d.rdbW != nil {
-				return false
+	var readable, quiet []int
+	for _, id := range live {
+		if d.readable(d.readers[id]) > 0 {
+			readable = append(readable, id)
+		} else if d.invalidated(d.readers[id]) || !d.readers[id].isAof {
+			quiet = append(quiet, id)
+		}
+	}
+	type cand struct {
+		w int
+		f func()
+	}
+	var cs []cand
+	add := func(w int, f func()) { cs = append(cs, cand{w, f}) }
+
+	if d.aofW != nil {
+		add(35, func() {
+			max := int(d.logSize) / 2
+			if r.Chance(1, 5) {
+				max = int(d.logSize) * 2
 			}
+			d.opAofAppend(d.chunk(max))
+			d.s.Count("op_aof_append")
+		})
+		add(2, func() { d.opAofClose(); d.s.Count("op_aof_close") })
+		add(2, func() { d.opAofWriter(d.right()); d.s.Count("op_aof_replace") })
+	} else if d.rdbW == nil {
+		add(12, func() {
 			off := int64(100 + r.Intn(900))
 			if d.haveHist {
 				off = d.right()
 			} else if d.haveSnap {
 				off = d.snapLeft
 			}
-			// after a re-scan the index decides what is held
 			if l, rr := d.st.GetOffsetRange(); l >= 0 && d.haveHist {
 				off = rr
 			}
 			d.opAofWriter(off)
-			return true
-		}
-		d.opAofAppend(d.chunk(int(d.logSize)))
-		d.s.Count("op_aof_append")
-	case k < 38: // snapshot bytes
-		if d.rdbW == nil {
-			return false
-		}
-		rem := d.snapSize - int64(len(d.snap))
-		n := int64(1 + r.Intn(int(rem)))
-		if r.Chance(1, 3) {
-			n = rem
-		}
-		d.opRdbAppend(r.Bytes(int(n)))
-		d.s.Count("op_rdb_append")
-	case k < 41: // new snapshot (cache reset)
+			d.s.Count("op_aof_writer")
+		})
+	}
+	if d.rdbW != nil {
+		add(30, func() {
+			rem := d.snapSize - int64(len(d.snap))
+			n := int64(1 + r.Intn(int(rem)))
+			if r.Chance(1, 3) {
+				n = rem
+			}
+			d.opRdbAppend(r.Bytes(int(n)))
+			d.s.Count("op_rdb_append")
+		})
+		add(2, func() { d.opRdbClose(); d.s.Count("op_rdb_close_early") })
+	}
+	add(2, func() {
 		if d.aofW != nil && r.Chance(1, 2) {
 			d.opAofClose()
 			d.observe()
 		}
 		d.opRdbWriter(int64(100+r.Intn(900)), int64(1+r.Intn(120)))
 		d.s.Count("op_rdb_writer")
-	case k < 43: // close the snapshot writer early
-		if d.rdbW == nil {
-			return false
-		}
-		d.opRdbClose()
-		d.s.Count("op_rdb_close_early")
-	case k < 47: // close / replace the stream writer
-		if d.aofW == nil {
-			return false
-		}
-		if r.Bool() {
-			d.opAofClose()
-			d.s.Count("op_aof_close")
-		} else {
-			d.opAofWriter(d.right())
-			d.s.Count("op_aof_replace")
-		}
-	case k < 57: // collector pass
-		d.opGc()
-		d.s.Count("op_gc")
-	case k < 67: // open a reader
-		var off int64
-		l, rr := d.st.GetOffsetRange()
-		switch {
-		case l >= 0 && r.Chance(6, 10):
-			off = l + int64(r.Intn(int(rr-l+1)))
-		case d.haveSnap && r.Chance(1, 2):
-			off = d.snapLeft - int64(r.Intn(3))
-		default:
-			off = int64(r.Intn(2500))
-		}
-		if off < 0 {
-			off = 0
-		}
-		d.opOpen(off, false)
-	case k < 90: // read
-		if len(live) == 0 {
-			return false
-		}
-		rid := vfutil.Pick(r, live)
-		vr := d.readers[rid]
-		av := d.readable(vr)
-		if av <= 0 {
-			if d.invalidated(vr) || !vr.isAof {
-				// ended or failed: must not deliver anything
-				d.opRead(rid, 1+r.Intn(16))
-				d.s.Count("op_read_dead_or_eof")
-				return true
+	})
+	add(8, func() { d.opGc(); d.s.Count("op_gc") })
+	if len(live) < 6 {
+		add(8, func() {
+			var off int64
+			l, rr := d.st.GetOffsetRange()
+			switch {
+			case l >= 0 && r.Chance(7, 10):
+				off = l + int64(r.Intn(int(rr-l+1)))
+				if r.Chance(1, 4) {
+					off = rr
+				}
+			case d.haveSnap && r.Chance(1, 2):
+				off = d.snapLeft - int64(r.Intn(3))
+			default:
+				off = int64(r.Intn(2500))
 			}
-			return false
-		}
-		n := 1 + r.Intn(int(d.logSize)+8)
-		d.opRead(rid, n)
-		d.s.Count("op_read")
-	case k < 94: // close a reader
-		if len(live) == 0 {
-			return false
-		}
-		d.opClose(vfutil.Pick(r, live))
-		d.s.Count("op_reader_close")
-	case k < 96: // delete the replication id (cache reset)
-		d.opDelRun()
-		d.s.Count("op_delrun")
-	default: // re-scan / replication-id switch with nothing open
-		if d.aofW != nil || d.rdbW != nil || len(live) > 0 {
-			return false
-		}
-		if r.Bool() {
-			d.opSetRun(d.runId)
-			d.s.Count("op_rescan")
-		} else {
-			d.nextId++
-			d.opSetRun(fmt.Sprintf("id%d", d.nextId))
-			d.s.Count("op_switch_id")
-		}
+			if off < 0 {
+				off = 0
+			}
+			d.opOpen(off, r.Chance(1, 3))
+		})
 	}
-	return true
+	if len(readable) > 0 {
+		add(30, func() {
+			rid := vfutil.Pick(r, readable)
+			n := 1 + r.Intn(int(d.logSize)+8)
+			d.opRead(rid, n)
+			d.s.Count("op_read")
+		})
+	}
+	if len(quiet) > 0 {
+		add(3, func() {
+			// ended, failed or at the end of a snapshot: must not deliver anything else
+			d.opRead(vfutil.Pick(r, quiet), 1+r.Intn(16))
+			d.s.Count("op_read_dead_or_eof")
+		})
+	}
+	if len(live) > 0 {
+		add(3, func() { d.opClose(vfutil.Pick(r, live)); d.s.Count("op_reader_close") })
+	}
+	add(1, func() { d.opDelRun(); d.s.Count("op_delrun") })
+	if d.aofW == nil && d.rdbW == nil && len(live) == 0 {
+		add(6, func() {
+			if r.Bool() {
+				d.opSetRun(d.runId)
+				d.s.Count("op_rescan")
+			} else {
+				d.nextId++
+				d.opSetRun(fmt.Sprintf("id%d", d.nextId))
+				d.s.Count("op_switch_id")
+			}
+		})
+	}
+	tot := 0
+	for _, c := range cs {
+		tot += c.w
+	}
+	k := r.Intn(tot)
+	for _, c := range cs {
+		if k < c.w {
+			c.f()
+			return true
+		}
+		k -= c.w
+	}
+	return false
 }
 
 func (d *vfDisk) runCase(nops int) {
@@ -792,7 +861,7 @@ func (d *vfDisk) finishCase() {
 func (d *vfDisk) runScript(script string) {
 	for _, op := range strings.Split(script, ";") {
 		f := strings.Fields(op)
-		if len(f) == 0 || d.dead {
+		if len(f) == 0 || (d.dead && f[0] != "dnew") {
 			continue
 		}
 		num := func(i int) int64 { v, _ := strconv.ParseInt(f[i], 10, 64); return v }
@@ -871,8 +940,11 @@ func TestVerifC05(t *testing.T) {
 		}
 	}
 	cases := vfutil.Scale(60, 1500)
+	if v, err := strconv.Atoi(os.Getenv("VERIF_CASES")); err == nil {
+		cases = v
+	}
 	for c := 0; c < cases; c++ {
-		d.runCase(vfutil.Scale(120, 200))
+		d.runCase(vfutil.Scale(150, 250))
 		s.Count("cases")
 	}
 	_ = filepath.Join
